@@ -247,7 +247,7 @@ func worldC12(w *World) {
 				if c.Sess == 0 && c.Kind == "close" && c.Arg == "valid" {
 					closedByClient = true
 				}
-				if c.Sess == 0 && (c.Arg == "valid" || c.Arg == "mixedbatch" || c.Arg == "oddmsg") {
+				if c.Sess == 0 && (c.Arg == "valid" || c.Arg == "mixedbatch") {
 					// an earlier poll may have consumed messages, and a data call on a
 					// session whose backend is gone tears the relay down early; the clause
 					// is asserted for sessions that were only polled after the backend closed
